@@ -69,7 +69,7 @@ LEDGER = {
     'LEDGER.tbl_bidi': ['precis-profiles:bidi::verif_kani::tbl_bidi'],
     'LEDGER.tbl_exceptions (t_exception)': ['precis-core:common::verif_kani::tbl_exceptions'],
     'LEDGER.tbl_is_* (22 table predicates of precis-core)': ['precis-core:common::verif_kani::tbl_is_*'],
-    'LEDGER.tbl_has_compat (t_has_compat == NFKC(cp) != cp)': ['native-exhaustive:derived (kind X, not deductive)'],
+    'has_compat': ['verified in Verus against its definition over the uninterpreted NFKC; cross-checked natively by exhaustive derived (kind X)'],
     'axiom_space_freeform': ['native-exhaustive:derived (kind X, not deductive)'],
     'axiom_lower_keeps_valid (outside the listed Cherokee finding)': ['native-exhaustive:lower_valid (kind X, not deductive)'],
     'axiom_nfc_keeps_valid': ['UNCHECKED:external normaliser'],
